@@ -147,6 +147,29 @@ def post_invariants(I, inst, results, arg_vals):
         walk(st, ret, inst.locals[0], 0, seen)
 
 
+def alt_combos(P, mentioned):
+    """the (function, union field) alternatives to analyse for the paired types in `mentioned`"""
+    pairs = pair_alternatives(P)
+    combos = [{}]
+    SR, PF = 'memmem::searcher::Searcher', 'memmem::searcher::Prefilter'
+    if SR in mentioned and PF in mentioned:
+        # the prefilter alternative only matters for searcher kinds whose union field holds a Prefilter
+        sty = next(t for t in P.types if t.get('kind') == 'adt' and t.get('path') == 'memmem::searcher::SearcherKind')
+        combos = []
+        for alt in pairs[SR]:
+            fld = sty['variants'][0]['fields'][alt[1]]
+            if type_mentions(P, fld['ty'], {PF}):
+                combos += [{SR: alt, PF: palt} for palt in pairs[PF]]
+            else:
+                combos.append({SR: alt, PF: pairs[PF][0]})
+        for path in sorted(mentioned - {SR, PF}):
+            combos = [dict(c, **{path: alt}) for c in combos for alt in pairs[path]]
+    else:
+        for path in sorted(mentioned):
+            combos = [dict(c, **{path: alt}) for c in combos for alt in pairs[path]]
+    return combos
+
+
 def variants_for(P, inst):
     """[(variant name, contract or None, post-check or None)]"""
     p = inst.path
@@ -175,26 +198,19 @@ def variants_for(P, inst):
     if sp is not None:
         base = specs.install(sp, base)
         postf = specs.post(sp)
+    from . import mm
+    if mm.has_domain(inst):
+        # documented panic: analysed on both sides of the documented condition
+        def dom(mode, inner):
+            def c(I, inst_, st, args):
+                I.opts['mm_domain'] = mode
+                return inner(I, inst_, st, args) if inner else args
+            return c
+        return [(name + '|in-domain', dom('in', base), postf), (name + '|out-of-domain', dom('out', base), None)]
     if not mentioned:
         return [(name, base, postf)]
     out = []
-    combos = [{}]
-    SR, PF = 'memmem::searcher::Searcher', 'memmem::searcher::Prefilter'
-    if SR in mentioned and PF in mentioned:
-        # the prefilter alternative only matters for searcher kinds whose union field holds a Prefilter
-        sty = next(t for t in P.types if t.get('kind') == 'adt' and t.get('path') == 'memmem::searcher::SearcherKind')
-        combos = []
-        for alt in pairs[SR]:
-            fld = sty['variants'][0]['fields'][alt[1]]
-            if type_mentions(P, fld['ty'], {PF}):
-                combos += [{SR: alt, PF: palt} for palt in pairs[PF]]
-            else:
-                combos.append({SR: alt, PF: pairs[PF][0]})
-        for path in sorted(mentioned - {SR, PF}):
-            combos = [dict(c, **{path: alt}) for c in combos for alt in pairs[path]]
-    else:
-        for path in sorted(mentioned):
-            combos = [dict(c, **{path: alt}) for c in combos for alt in pairs[path]]
+    combos = alt_combos(P, mentioned)
     for c in combos:
         label = name + ':' + ','.join(f"{k.rsplit('::', 1)[1]}={v[0].rsplit('::', 1)[1]}" for k, v in sorted(c.items()))
         out.append((label, with_alts(c, base), postf))
